@@ -26,9 +26,25 @@ MANIFEST = {
             "every max_columns and indentation, every layout of the formatter model (coq/Formatter.v) denotes the same "
             "pest token stream as the one-line printer (C07_layout_preserves_items, also for any oracle record with the "
             "stated interface), hence the Pratt parser returns the tree from the formatter's token stream at every width "
-            "(C07_format_roundtrip_items); PARTIAL: that the layout's TEXT has exactly those tokens "
-            "(C07_layout_preserves_tokens_full) and that its line breaks are where grammar.pest admits NEWLINE "
-            "(C07_layout_parses_full) are stated, not proved: decided on every run by the FORMAT-items stream (real "
+            "(C07_format_roundtrip_items); the lexical view's character automaton toks composes (C07_toks_compose; "
+            "C07_toks_boundary with a decidable boundary condition; C07_toks_separator / _layout_separators for blanks, "
+            "line breaks, indentation and comments; C07_toks_string_literal, C07_toks_comment for the two states that "
+            "swallow separators), the chunks of a document whose seams are boundaries are the chunks of its pieces "
+            "(C07_doc_toks), and EVERY layout function at every width and indentation, for any oracle record, builds "
+            "such a document (C07_layout_tokens_are_pieces_partial, for trees without comment annotations whose "
+            "one-line texts / names / keys stop in code state: the decidable tok_ok); for the binary-operator, conditional "
+            "(else-if chain) and assignment layouts the laid-out TEXT has exactly the chunks of the one-line text, for any "
+            "printer version (C07_layout_view_operators_conditionals_partial), likewise for do-blocks "
+            "(C07_layout_view_do_block_partial: protect_leading_minus agrees with the one-line do-block rule) and for the "
+            "whole recursive fragment without list / record / call / lambda in a laid-out position "
+            "(C07_layout_view_flat_partial: same chunks, hence same view, every width and indentation); canon ignores a "
+            "trailing comma before a final closer (C07_canon_trailing_comma), which closes the list and call layouts for elements / "
+            "callee and arguments with chunk-equal layouts (C07_layout_view_list_partial, C07_layout_view_call_partial); PARTIAL: the statement "
+            "C07_layout_preserves_tokens_full as first written is refuted by the model (missing lexical hypothesis: an "
+            "identifier spelled `//`; C07_layout_preserves_tokens_full_refuted — not a defect of the code); restated with "
+            "tok_ok and without cr_free as C07_layout_view_full, of which the record / lambda families and lists / calls nested in lists / calls (the "
+            "general canon congruence: trailing commas, `x =>` vs `(x) =>`) and tok_ok from wf + lexical sanity of names / number texts remain open; that the layout's line breaks are where grammar.pest admits NEWLINE "
+            "(C07_layout_parses_full) is stated, not proved: both decided on every run by the FORMAT-items stream (real "
             "format_expr output at the widths where the layout changes, under the lexical view toks/canon evaluated by "
             "vm_compute and by a Python twin) and by the re-parse search; finding F55 (CRLF dropped by the via/into/where layout) was "
             "repaired in /repo 5eeeb29 (C07_relined_identity, C07_layout_crlf_repaired). "
